@@ -585,6 +585,20 @@ func (st *State) orderedByGo(a Access, gb int) bool {
 	return false
 }
 
+func (st *State) descendsFrom(g, anc int) bool {
+	for c := g; c >= 0 && c < len(st.gs); {
+		p := st.gs[c].Parent
+		if p == anc {
+			return true
+		}
+		if p < 0 || p == c {
+			return false
+		}
+		c = p
+	}
+	return false
+}
+
 func (st *State) noteAccess(g *G, l *Loc, write bool, in ssa.Instruction) {
 	if !st.logAccess || g == nil {
 		return
@@ -634,12 +648,18 @@ func (st *State) reportRaces() {
 		idx := byLoc[k]
 		// Eraser's exclusive phase for objects allocated during the run: accesses by the allocating goroutine
 		// before any other goroutine touches the object are initialisation, published later under a lock
+		// Eraser's exclusive phase for objects allocated during the run: the allocating goroutine's accesses before
+		// the first access by an unrelated goroutine are initialisation (the object is published under a lock);
+		// goroutines descending from the allocator are ordered by their spawn instead (orderedByGo below)
+		firstForeign := -1
 		if k.loc != nil && k.loc.Fresh {
-			cut := 0
-			for cut < len(idx) && st.accessLog[idx[cut]].G == k.loc.AllocG {
-				cut++
+			for _, i := range idx {
+				a := st.accessLog[i]
+				if a.G != k.loc.AllocG && !st.descendsFrom(a.G, k.loc.AllocG) {
+					firstForeign = a.Seq
+					break
+				}
 			}
-			idx = idx[cut:]
 		}
 		for x := 0; x < len(idx); x++ {
 			for y := x + 1; y < len(idx); y++ {
@@ -660,6 +680,15 @@ func (st *State) reportRaces() {
 				}
 				if st.orderedByGo(a, b.G) || st.orderedByGo(b, a.G) {
 					continue
+				}
+				if k.loc != nil && k.loc.Fresh && firstForeign >= 0 {
+					// allocator's initialisation vs. an unrelated goroutine
+					if a.G == k.loc.AllocG && !st.descendsFrom(b.G, a.G) && a.Seq < firstForeign {
+						continue
+					}
+					if b.G == k.loc.AllocG && !st.descendsFrom(a.G, b.G) && b.Seq < firstForeign {
+						continue
+					}
 				}
 				p1, p2 := a.Pos, b.Pos
 				if p2 < p1 {
